@@ -421,10 +421,11 @@ pub fn check_comb(c: &CombCase, st: &mut Stats) -> CheckResult {
             ensure!(*cap >= 1, "bad case: capacity 0");
             let limit = (*src_len as usize + *cap + 4) * 8;
             macro_rules! go {
-                ($sig:expr, $what:expr) => {{
+                ($sig:expr, $what:expr, $lo:expr, $hi:expr) => {{
                     let mut it = $sig.until_exhausted();
                     let n = it.by_ref().take(limit).count();
                     ensure!(n < limit, "{}: until_exhausted() does not end", $what);
+                    ensure!(n as u64 >= $lo && (n as u64) < $hi, "{} over a source of {} frames: until_exhausted() yields {} frames, expected at least {} and fewer than {}", $what, src_len, n, $lo, $hi);
                     for j in 0..5 {
                         ensure!(it.next().is_none(), "{} over a source of {} frames: until_exhausted() yielded another frame on call {} after it had returned None ({} frames before that)", $what, src_len, j + 1, n);
                     }
@@ -433,9 +434,10 @@ pub fn check_comb(c: &CombCase, st: &mut Stats) -> CheckResult {
             if *upsample {
                 let mut s = comb_src(*src_len);
                 let i = Floor::new(s.next());
-                go!(s.scale_hz(i, 1.0 / *cap as f64), format!("a floor converter at ratio 1/{}", cap));
+                go!(s.scale_hz(i, 1.0 / *cap as f64), format!("a floor converter at ratio 1/{}", cap), 0u64, u64::MAX);
             } else {
-                go!(comb_src(*src_len).buffered(dasp_ring_buffer::Bounded::from(vec![0.0f64; *cap])), format!("a buffered signal of capacity {}", cap));
+                // a buffered signal delivers every source frame and pads by less than one buffer
+                go!(comb_src(*src_len).buffered(dasp_ring_buffer::Bounded::from(vec![0.0f64; *cap])), format!("a buffered signal of capacity {}", cap), *src_len, *src_len + *cap as u64);
             }
             st.nt(*cap >= 2);
             st.class("until_exhausted polled again after None");
